@@ -125,7 +125,7 @@ def dep_closure(vfile):
     return sorted(seen)
 
 
-def proof_status(pid, regen_log=""):
+def proof_status(pid, regen_log="", tier="quick"):
     """Builds Properties_<pid>.vo (and everything it depends on) and collects obligations / axioms."""
     pf = os.path.join(COQ, f"Properties_{pid}.v")
     st = {"obligations": 0, "discharged": 0, "theorems": [], "axioms": [], "broken": None, "checker_cmd": f"cd coq && make -k -j16 Properties_{pid}.vo && coqc -Q . LP Properties_{pid}.v  (Coq 8.16.1, full .vo build, Print Assumptions under every theorem)", "forbidden": []}
@@ -164,6 +164,16 @@ def proof_status(pid, regen_log=""):
                 if m.group(1) != "Axioms": ax.add(m.group(1))
     st["axioms"] = sorted(ax)
     st["closed"] = r.stdout.count("Closed under the global context")
+    if tier == "thorough" and not os.environ.get("VERIF_NO_COQCHK"):
+        try:
+            with vbuild.Lock("coq"):
+                rc2 = subprocess.run(["coqchk", "-silent", "-o", "-Q", ".", "LP", f"LP.Properties_{pid}"], cwd=COQ, stdout=subprocess.PIPE, stderr=subprocess.STDOUT, text=True, timeout=1500)
+            summ = rc2.stdout[rc2.stdout.find("CONTEXT SUMMARY"):] if "CONTEXT SUMMARY" in rc2.stdout else rc2.stdout[-1500:]
+            st["coqchk"] = {"exit": rc2.returncode, "summary": re.sub(r"\s+", " ", summ)[:4000]}
+            if rc2.returncode != 0:
+                st["broken"] = {"what": "coqchk (independent checker) rejects the compiled property file", "log": rc2.stdout[-2000:]}
+        except subprocess.TimeoutExpired:
+            st["coqchk"] = {"exit": None, "summary": "timed out after 1500 s (not counted as a failure)"}
     if st["forbidden"]:
         st["broken"] = {"what": "forbidden construct in the Coq development", "items": st["forbidden"][:10]}
     return st
@@ -210,7 +220,7 @@ def run(pid, tier="quick", seed=1, replay=None):
         except Exception as e:   # translator rejected the source
             broken.append({"kind": "translator", "what": "the translator cannot regenerate the model from the current source", "log": str(e)[-3000:]})
     # ---- S1 proofs
-    ps = proof_status(pid, regen_log)
+    ps = proof_status(pid, regen_log, tier)
     if ps["broken"]:
         b = dict(ps["broken"]); b["kind"] = "theorem"; broken.append(b)
     dname = getattr(mod, "DRIVER", pid)
@@ -278,6 +288,43 @@ def run(pid, tier="quick", seed=1, replay=None):
             broken.append({"kind": "correspondence", "what": f"model and implementation disagree on {len(mism)} of {len(cases)} cases", "first": mism[:5]})
     elif not cases:
         notes.append("no cases generated")
+
+    # ---- thorough tier: the same cases under sanitizers and under clang++ -O2
+    alt = {}
+    if tier == "thorough" and exe and cases and os.path.exists(driver) and not replay and not getattr(mod, "NO_ALT_BUILDS", False):
+        SAN = ["-fsanitize=address,undefined", "-fno-sanitize-recover=all", "-fno-omit-frame-pointer"]
+        senv = {"ASAN_OPTIONS": "exitcode=99:detect_leaks=0:abort_on_error=0", "UBSAN_OPTIONS": "halt_on_error=1:exitcode=98:print_stacktrace=0"}
+        senv.update(getattr(mod, "HARNESS_ENV", None) or {})
+        for tag, cxx, fl, env in (("asan", "g++", SAN, senv), ("clang", "clang++", ["-O2"], getattr(mod, "HARNESS_ENV", None))):
+            try:
+                lib2 = vbuild.build_lib(cxx=cxx, extra_flags=fl, tag=tag)
+                exe2 = vbuild.build_harness(os.path.join(VERIF, "harness", getattr(mod, "HARNESS", pid + ".cpp")), lib2, cxx=cxx, extra_flags=fl)
+            except RuntimeError as e:
+                notes.append(f"{tag} build failed: {str(e)[-300:]}"); continue
+            sub = cases if len(cases) <= 20000 else [cases[i] for i in sorted(rng.sample(range(len(cases)), 20000))]
+            out2 = [canon_impl(l) for l in run_exe(exe2, [c.line for c in sub], work, "impl_" + tag, env=env)]
+            bad = 0; dis = 0
+            mo_by_line = {c.line: m for c, m in zip(cases, model_out)}
+            for c, io in zip(sub, out2):
+                head = io.split()[0] if io else ""
+                if head in ("SANITIZER", "CRASH", "TIMEOUT") and not getattr(mod, "ALLOW_" + head, False):
+                    bad += 1
+                    violations.append({"sig": f"{head}:{tag}:{c.line.split()[0]}", "msg": f"{tag} build: the implementation ended with {io} on this request", "case": c.line, "impl": io, "model": mo_by_line.get(c.line, "")})
+                    continue
+                tol = c.tol or (mod.tolerance(c) if hasattr(mod, "tolerance") else getattr(mod, "TOL", (1e-9, 0.0)))
+                ok, bit, detail = (mod.compare(c, io, mo_by_line.get(c.line, ""), tol) if hasattr(mod, "compare") else compare_lines(io, mo_by_line.get(c.line, ""), tol))
+                if not ok:
+                    dis += 1
+                    try: pv = mod.predicates(c, io)
+                    except Exception: pv = []
+                    for v in pv:
+                        sig, msg = v if isinstance(v, tuple) else (c.line.split()[0], v)
+                        violations.append({"sig": sig, "msg": f"{tag} build: {msg}", "case": c.line, "impl": io, "model": mo_by_line.get(c.line, "")})
+            alt[tag] = {"cases": len(sub), "sanitizer_or_crash": bad, "disagree_with_model": dis}
+            if dis and tag == "asan":
+                broken.append({"kind": "correspondence", "what": f"{tag} build disagrees with the model on {dis} cases"})
+            elif dis:
+                notes.append(f"{tag} build differs from the model beyond tolerance on {dis} cases (different compiler rounding/libm inlining is possible; predicates were evaluated on them)")
 
     # ---- property-specific extra stages (S3 certified samples, measured configurations, ...)
     extra = {}
@@ -353,12 +400,13 @@ def run(pid, tier="quick", seed=1, replay=None):
           "modelling assumption double ~ R for theorems stated over R (not needed for theorems over the abstract order)"]
     tb += list(getattr(mod, "TRUSTED", []))
     cov = {"obligations": ps["obligations"], "discharged": ps["discharged"], "checker_cmd": ps["checker_cmd"], "trusted_base": tb,
-           "theorems": ps["theorems"], "axioms": ps["axioms"],
+           "theorems": ps["theorems"], "axioms": ps["axioms"], "coqchk": ps.get("coqchk", "not run in the quick tier"),
            "evaluations": stats["evaluations"], "distinct_nontrivial": len(nontriv), "rule": getattr(mod, "RULE", ""),
            "samples": samples or [{"note": "no sample collected"}],
            "traces_validated_against_impl": stats["within_tol"], "bit_identical": stats["bit_identical"], "mismatches": stats["mismatch"],
            "input_distribution": stats["tags"], "impl_outcomes": stats["outcomes"],
            "known_findings_reproduced": sorted(seen_known), "broken": [{k: (str(v)[:500]) for k, v in b.items()} for b in broken[:4]]}
+    if alt: cov["alternative_builds"] = alt
     cov.update(extra)
     ev = {"property_id": pid, "tier": tier, "seed": seed, "level": getattr(mod, "LEVEL", "proof"), "coverage": cov,
           "assumptions": list(getattr(mod, "ASSUMPTIONS", [])) + notes[:10], "wall_s": round(time.time() - t0, 2), "violations": len(new_viol) + (1 if (broken and not new_viol) else 0)}
